@@ -348,3 +348,52 @@ func TestGovcReplayIntraReceiverCleanup(t *testing.T) {
 	}
 	fmt.Println("REPLAY-OK the old incarnation's clean-up left the successor's registration alone")
 }
+
+// ---- C08 (no worker left running): the intra-proxy receiver's wait for a local target channel ignores shutdown ----
+
+type govcOneMessageStream struct {
+	grpc.ClientStream
+	ctx  context.Context
+	sent bool
+}
+
+func (s *govcOneMessageStream) Send(*adminservice.StreamWorkflowReplicationMessagesRequest) error { return nil }
+func (s *govcOneMessageStream) Recv() (*adminservice.StreamWorkflowReplicationMessagesResponse, error) {
+	if !s.sent {
+		s.sent = true
+		return &adminservice.StreamWorkflowReplicationMessagesResponse{Attributes: &adminservice.StreamWorkflowReplicationMessagesResponse_Messages{
+			Messages: &replicationv1.WorkflowReplicationMessages{ExclusiveHighWatermark: 7}}}, nil
+	}
+	<-s.ctx.Done()
+	return nil, s.ctx.Err()
+}
+func (s *govcOneMessageStream) CloseSend() error         { return nil }
+func (s *govcOneMessageStream) Context() context.Context { return s.ctx }
+
+func govcIntraReceiverIgnoresShutdown() string {
+	sm := NewShardManager(nil, config.ShardCountConfig{Mode: config.ShardCountRouting}, encryption.TLSConfig{}, govcRegLoggers{})
+	ctx, cancel := context.WithCancel(context.Background())
+	defer cancel()
+	r := &intraProxyStreamReceiver{logger: log.NewNoopLogger(), shardManager: sm, peerNodeName: "peer",
+		targetShardID: history.ClusterShardID{ClusterID: 2, ShardID: 1}, sourceShardID: history.ClusterShardID{ClusterID: 1, ShardID: 1},
+		streamClient: &govcOneMessageStream{ctx: ctx}, streamID: "govc", shutdown: channel.NewShutdownOnce()}
+	done := make(chan struct{})
+	go func() { _ = r.recvReplicationMessages(); close(done) }()
+	time.Sleep(100 * time.Millisecond) // the worker has taken the message and waits for a local channel of the target shard, which never comes
+	r.shutdown.Shutdown()
+	cancel()
+	select {
+	case <-done:
+		return ""
+	case <-time.After(3 * time.Second):
+		return "the intra-proxy receiver was shut down (latch tripped, stream context cancelled) while it was waiting for a local send channel of its target shard; 3 s later its worker is still running: the wait loop never looks at the latch"
+	}
+}
+
+func TestGovcReplayIntraReceiverShutdown(t *testing.T) {
+	if m := govcIntraReceiverIgnoresShutdown(); m != "" {
+		fmt.Println("REPLAY-VIOLATION", m)
+		return
+	}
+	fmt.Println("REPLAY-OK the worker ended with the stream")
+}
